@@ -104,6 +104,8 @@ def ctor_kwargs(a, fx):
     for e in a.get("empty", []):          # present, with an empty value
         kw[e] = {"raw_graph": "", "rdflib_graph": rdflib.Graph(), "graph_list_of_files_input": [], "list_of_url_input": [],
                  "target_classes": [], "shape_map_raw": ""}[e]
+    if a.get("inst"):         # an optional argument outside the seven sources: the instantiation triples come from a file of their own
+        kw["instances_file_input"] = fx.graph_file("nt", a["comp"])       # (the compression mode applies to this file too)
     if a["allc"]:
         kw["all_classes_mode"] = True
     kw["input_format"] = _value(fmt)
@@ -209,6 +211,17 @@ def arg_vectors(tier, rnd):
                 out.append({"id": "a%d" % i, "src": sorted([e, other], key=SOURCES.index), "tgt": [], "allc": True, "comp": "none", "fmt": "nt",
                             "ex": "none", "disableOr": True, "redundantOr": False, "empty": empties})
                 i += 1
+    # optional arguments that are no graph source (instances_file_input) change nothing about which combinations are contradictory
+    for s in SOURCES:
+        for comp in ("none", "gz", "zip", "xz"):
+            for allc, tg in ((True, []), (False, ["target_classes"])):
+                out.append({"id": "a%d" % i, "src": [s], "tgt": tg, "allc": allc, "comp": comp, "fmt": "nt", "ex": "none", "disableOr": True,
+                            "redundantOr": False, "inst": True})
+                i += 1
+    for ss in (["raw_graph", "url_endpoint"], []):
+        out.append({"id": "a%d" % i, "src": ss, "tgt": [], "allc": True, "comp": "none", "fmt": "nt", "ex": "none", "disableOr": True,
+                    "redundantOr": False, "inst": True})
+        i += 1
     for tgts, empties in ((["target_classes", "shape_map_raw"], ["target_classes"]), (["target_classes", "shape_map_raw"], ["shape_map_raw"]),
                           (["target_classes", "file_target_classes"], ["target_classes"]), (["shape_map_raw", "shape_map_file"], ["shape_map_raw"])):
         for allc in (False, True):
@@ -258,12 +271,12 @@ def check_c20(out, tier):
     for a, r_ in zip(vectors, results):
         if r_.get("status") == "harness-error":
             raise common.Machinery("harness error: %s\n%s" % (r_.get("exc"), r_.get("trace", "")))
-        traces.append({"id": a["id"], "kind": "ctor", "a": {k: a[k] for k in a if k not in ("id", "empty")}, "ctor": r_["ctor"], "call": r_["call"],
+        traces.append({"id": a["id"], "kind": "ctor", "a": {k: a[k] for k in a if k not in ("id", "empty", "inst")}, "ctor": r_["ctor"], "call": r_["call"],
                        "c": {k: calls[0][k] for k in calls[0] if k not in ("id", "history", "source")}, "outcome": ""})
     for c, r_ in zip(calls, cres):
         if r_.get("status") == "harness-error":
             raise common.Machinery("harness error: %s\n%s" % (r_.get("exc"), r_.get("trace", "")))
-        traces.append({"id": c["id"], "kind": "call", "a": {k: vectors[0][k] for k in vectors[0] if k not in ("id", "empty")}, "ctor": "", "call": "",
+        traces.append({"id": c["id"], "kind": "call", "a": {k: vectors[0][k] for k in vectors[0] if k not in ("id", "empty", "inst")}, "ctor": "", "call": "",
                        "c": {k: c[k] for k in c if k not in ("id", "history", "source")}, "outcome": r_["outcome"], "history": c["history"] + "/" + c["source"]})
     verdicts, stats = tlc.validate_batch("Trace_Config", "Trace_Config.cfg", traces, procs=12, chunk=None)
     out.traces += len(traces)
@@ -370,7 +383,13 @@ def c18_graph_multi():
 PROFILES = {"or": {"disable_or_statements": False}, "or_redundant": {"disable_or_statements": False, "allow_redundant_or": True},
             "inverse": {"inverse_paths": True}, "strict": {"all_instances_are_compliant_mode": False, "keep_less_specific": False},
             "noexact": {"disable_exact_cardinality": True, "allow_opt_cardinality": False}, "cap": {"instances_cap": 2},
-            "ratio2": {"decimals": 2, "disable_comments": True}}
+            "ratio2": {"decimals": 2, "disable_comments": True}, "dec2": {"decimals": 2}, "dec0": {"decimals": 0},
+            "abs": {"instances_report_mode": "absolute"}}
+
+
+def _profile_of(payload, who):
+    """constructor option profile of one Shaper of the history: two Shapers of one process may be configured differently"""
+    return (payload.get("profiles") or {}).get(who, payload.get("profile", ""))
 
 
 def big_graph(n_classes=2300):
@@ -442,7 +461,8 @@ def _ctor_kwargs(payload, nsdict, who="A"):
         kw["examples_mode"] = C.ALL_EXAMPLES
     if payload.get("miniri"):
         kw["detect_minimal_iri"] = True
-    kw.update(PROFILES.get(payload.get("profile"), {}))
+    for k_, v_ in PROFILES.get(_profile_of(payload, who), {}).items():
+        kw[k_] = {"absolute": C.ABSOLUTE_INSTANCES}.get(v_, v_) if k_ == "instances_report_mode" else v_
     return kw
 
 
@@ -453,7 +473,7 @@ def _fresh(payload, c, who="A"):
     """what a brand-new Shaper (own pristine dictionary) returns for this call: the Fresh of spec/ShaperApi.tla"""
     from shexer.shaper import Shaper
     key = (payload["gid"], payload.get("examples", False), who in payload.get("turtle", ""), payload.get("shapes_in_dict", False),
-           payload.get("miniri", False), payload.get("profile", ""), c["kind"], c["fmt"], c["thr"])
+           payload.get("miniri", False), _profile_of(payload, who), c["kind"], c["fmt"], c["thr"])
     if key not in _FRESH:
         sh = Shaper(**_ctor_kwargs(payload, base_dict(payload), who))
         d = tempfile.mkdtemp(prefix="shexer-verif-c18f-")
@@ -543,6 +563,13 @@ def sequences(tier, rnd):
                rnd.sample(list(itertools.product(letters, repeat=3)), 8)
         for sq in seqs:
             out.append({"id": "s%d" % i, "gid": "multi", "nt": mnt, "seq": [("A", ALPHABET[j]) for j in sq], "shared": False, "profile": prof})
+            i += 1
+    # two Shapers of one process configured differently (decimals regimes, report modes, comments), used in turns: what one
+    # prints does not depend on the other having been used in between
+    for pa, pb in [("dec2", ""), ("", "dec2"), ("dec0", "dec2"), ("dec2", "dec0"), ("abs", ""), ("", "abs"), ("ratio2", ""), ("strict", "noexact")]:
+        for sq in [(("A", 0), ("B", 0), ("A", 0)), (("A", 0), ("B", 6), ("A", 0)), (("B", 0), ("A", 0), ("B", 6), ("A", 6)), (("A", 1), ("B", 0), ("A", 1))]:
+            out.append({"id": "s%d" % i, "gid": "small", "nt": nt, "seq": [(w, ALPHABET[j]) for w, j in sq], "shared": rnd.random() < .5,
+                        "profiles": {"A": pa, "B": pb}})
             i += 1
     # > 10 000 lines: the serializer flushes its buffer every 5 000 lines
     bnt = M.to_nt(big_graph(2300 if tier == "quick" else 5200))
